@@ -546,9 +546,11 @@ func ModQuote(r *rand.Rand, s string, fancy bool) string {
 	}
 	var sb strings.Builder
 	sb.WriteByte('"')
-	for _, c := range s {
+	for i, c := range s {
 		switch {
-		case c < 0x80 && r.IntN(6) == 0:
+		// a backslash, above all a trailing one, is often spelled with a numeric escape: the parser then
+		// re-quotes the value as \\ and the lexer has to cope with an escaped backslash before the quote
+		case c < 0x80 && (r.IntN(6) == 0 || c == '\\' && (i == len(s)-1 || r.IntN(2) == 0)):
 			switch r.IntN(3) {
 			case 0:
 				fmt.Fprintf(&sb, `\x%02x`, c)
@@ -594,7 +596,7 @@ var modHosts = []string{"example.com", "github.com/user", "golang.org/x", "rsc.i
 var modNames = []string{"m", "tools", "quote", "repo", "pkg-x", "a_b", "z9", "Mixed", "x.y", "mod", "v", "vv2", "cmd"}
 var modExoticPaths = []string{"example.com/a b", "example.com/a\"q", "example.com/(paren)", "ex.com/a//b", "ex.com/a/*b", "世界.com/m", "ex.com/a,b",
 	"ex.com/[x]", "ex.com/a\tb", "ex.com/\x00z", "ex.com/it's", "ex.com/`bq`", "ex.com/\xffbad", "ex.com/{c}", "ex.com/nb\u00a0sp", "ex.com/e\u0301",
-	"ex.com/new\nline", "(x", "a)", "module x", "ex.com/back\\slash", "ex.com/🙂"}
+	"ex.com/new\nline", "(x", "a)", "module x", "ex.com/back\\slash", "ex.com/🙂", "ex.com/trailing\\", "ex.com/sp ace\\", "\\"}
 
 // ModPathVersion returns a module path and a canonical version that satisfies the
 // path's major-version suffix. exotic allows paths that need quoting.
@@ -1070,7 +1072,7 @@ func GoWork(r *rand.Rand, o ModOpts) *ModDoc {
 	groups = append(groups, d.renderStmts(l, o, "godebug", d.godebugItems(l, r.IntN(max)/2), true))
 	var items []modItem
 	for i, n := 0, r.IntN(max+1); i < n; i++ {
-		p := Pick(r, []string{"./a", "../b", "/abs/dir", "./with space", "C:\\win\\dir", ".", "./x/y/z", "sub", "./q\"uote", "./(p)", "./é", "./a//b"})
+		p := Pick(r, []string{"./a", "../b", "/abs/dir", "./with space", "C:\\win\\dir", ".", "./x/y/z", "sub", "./q\"uote", "./(p)", "./é", "./a//b", "./my dir\\", "C:\\win\\", "./tr\\"})
 		if o.NoExotic {
 			p = Pick(r, []string{"./a", "../b", "/abs/dir", ".", "./x/y/z", "sub"})
 		}
